@@ -6,6 +6,7 @@ import (
 	"fmt"
 	"go/constant"
 	"os"
+	"runtime"
 	"runtime/debug"
 	"runtime/pprof"
 	"sort"
@@ -238,8 +239,18 @@ func (e *Engine) runPath(entry *ssa.Function, prefix []int) {
 			e.solver.start()
 			sh.mu.Lock()
 		default:
-			sh.mu.Unlock()
-			panic(r)
+			// a Go runtime panic inside the engine itself: count it as unsupported, never as a verdict
+			buf := make([]byte, 2048)
+			buf = buf[:runtime.Stack(buf, false)]
+			msg := fmt.Sprint(r)
+			if i := strings.Index(string(buf), "main.(*Engine)"); i >= 0 {
+				j := i + 300
+				if j > len(buf) {
+					j = len(buf)
+				}
+				msg += " | " + strings.ReplaceAll(string(buf[i:j]), "\n", " ")
+			}
+			sh.res.Aborts["ENGINE BUG: "+msg]++
 		}
 	}()
 	e.callFn(entry, nil, nil)
@@ -325,7 +336,7 @@ func normalisePanic(m string) string {
 func (sh *Shared) worker(entry *ssa.Function, wg *sync.WaitGroup, deadline time.Time, stats *solverStats) {
 	defer wg.Done()
 	e := &Engine{sh: sh, prog: sh.prog, solver: NewSolver(sh.cfg.SolverBin, sh.cfg.SolverArgs...), entryName: entry.Name(),
-		funcs: map[*ssa.Function]int{}, counters: map[string]int{}}
+		funcs: map[*ssa.Function]int{}, counters: map[string]int{}, deadline: deadline}
 	defer func() {
 		stats.add(e.solver)
 		e.solver.Close()
@@ -490,7 +501,13 @@ func main() {
 	under := flag.String("undertest", "github.com/grafana/cog", "package path prefix of the code under test")
 	cpuprof := flag.String("cpuprofile", "", "")
 	gcPercent := flag.Int("gcpercent", 600, "GOGC for the engine (the SSA program is a large, static live heap)")
+	genDC := flag.String("gen-deepcopy", "", "write the generated DeepCopy harness to this file and exit")
+	genList := flag.String("gen-list", "", "write the list of generated entries to this file")
 	flag.Parse()
+	if *genDC != "" {
+		genDeepCopy(*dir, strings.Split(*pkgPat, ","), *genDC, *genList)
+		return
+	}
 	debug.SetGCPercent(*gcPercent)
 	underTestPrefix = *under
 	if *cpuprof != "" {
